@@ -11,7 +11,8 @@ META = {
     "rule": "one case = (geometry pair, radius, k, weight functions / sigmas, data variant, with_uncert, fill). k in "
             "{2,3,4,8,32, > n}; weight functions: piecewise-constant dyadic (exact), 1/(1+d), inverse-distance 1/d**2 "
             "(singular at 0), Gaussian with scalar or per-channel sigmas; data: single / multi channel, masked, constant "
-            "fields. Each real output element is compared (1e-9 rel.) with the model's weighted mean over the real "
+            "fields, and one variant per pair in a memory layout that is not C-contiguous (Fortran order, transposed / strided / reversed view). "
+            "Each real output element is compared (1e-9 rel.) with the model's weighted mean over the real "
             "neighbour info and with a brute-force k-nearest oracle. Non-trivial: some target has between 1 and k-1 "
             "neighbours in range, or >= 2 channels with different weight functions. Distinct = distinct canonical input.",
     "assumptions": ["weights w(d) are computed by calling the caller's function on the real distance array (data for the model)",
@@ -45,6 +46,28 @@ def _close(a, b):
     return abs(a - b) <= REL * max(1.0, abs(a), abs(b))
 
 
+LAYOUTS = ("fortran", "transposed_view", "strided_view", "reversed_view")
+
+
+def _relayout(a, layout):
+    """the same array as far as numpy semantics go (np.array_equal, same shape and dtype) in another memory layout: the value that belongs to
+    source location (row, col) is a[row, col], however the elements are laid out in memory"""
+    if isinstance(a, np.ma.MaskedArray):
+        return np.ma.array(_relayout(np.ma.getdata(a), layout), mask=_relayout(np.ma.getmaskarray(a), layout))
+    if layout == "fortran":                      # column-major copy (np.asfortranarray, arrays read from Fortran-written files)
+        out = np.asfortranarray(a)
+    elif layout == "transposed_view":            # .T of a C-contiguous array
+        out = np.ascontiguousarray(a.T).T
+    elif layout == "strided_view":               # every second element of the last axis of a wider array
+        big = np.zeros(a.shape[:-1] + (2 * a.shape[-1],), dtype=a.dtype)
+        big[..., ::2] = a
+        out = big[..., ::2]
+    else:                                        # negative stride on the first axis
+        out = np.ascontiguousarray(a[::-1])[::-1]
+    assert out.shape == a.shape and out.dtype == a.dtype and np.array_equal(out, a)
+    return out
+
+
 def check(ctx, src, tgt, radius, desc):
     from pyresample import kd_tree
     slo, sla = kc.lonlats(src)
@@ -71,6 +94,12 @@ def check(ctx, src, tgt, radius, desc):
                      [r.choice(["step", "soft", "sharp"]), "lin"], m2))
     # data with a large offset against its spread (e.g. epoch seconds): the estimator must not cancel
     variants.append(("1ch_offset", (v1 + 1.7e9).reshape(src.shape), [r.choice(["step", "soft", "lin"])], None))
+    # one of the variants above once more in a memory layout that is not C-contiguous (same values, same shape, same dtype)
+    base_v = r.choice(variants[:3])
+    layout = r.choice(LAYOUTS)
+    lay_data = _relayout(base_v[1], layout)
+    variants.append((f"{base_v[0]}[{layout}]", lay_data, base_v[2], base_v[3]))
+    ctx.count("layout." + layout + (".not_c_contiguous" if not np.ma.getdata(lay_data).flags["C_CONTIGUOUS"] else ".c_contiguous(degenerate shape)"))
     with warnings.catch_warnings():
         warnings.simplefilter("ignore")
         vii, voi, ia, da = kd_tree.get_neighbour_info(src, tgt, radius, neighbours=k, epsilon=0, reduce_data=False, segments=1)
@@ -199,7 +228,8 @@ def check(ctx, src, tgt, radius, desc):
                      sample={"input": inp} if vname == "3ch" and with_uncert else None)
     # ---- gauss --------------------------------------------------------------------------------
     sig = [r.choice([5000.0, 25000.0, 2.0e5]) for _ in range(3)]
-    for vname, data, sigmas in (("1ch", variants[0][1], sig[0]), ("3ch", variants[1][1], sig), ("masked2ch", variants[3][1], sig[:2])):
+    for vname, data, sigmas in (("1ch", variants[0][1], sig[0]), ("3ch", variants[1][1], sig), ("masked2ch", variants[3][1], sig[:2]),
+                                (variants[5][0], variants[5][1], sig if variants[5][1].ndim > len(src.shape) else sig[0])):
         nch = 0 if data.ndim == len(src.shape) else data.shape[-1]
         inp = {**inp0, "data": vname, "sigmas": sigmas}
         with warnings.catch_warnings():
@@ -218,6 +248,19 @@ def check(ctx, src, tgt, radius, desc):
         if not same:
             ctx.fail("kd_tree.resample_gauss", "differs from resample_custom with w(d) = exp(-d^2/sigma^2) for the channel's sigma", inp,
                      tags={"kind": "gauss"}, size=n_src + n_tgt)
+        if vname.endswith("]"):
+            # memory-layout variant: x_i is the value AT source location i, so the C-contiguous copy of the same array must give the same answer
+            # (the C-contiguous data are decided against the brute-force oracle above)
+            cdata = np.ma.array(np.ascontiguousarray(np.ma.getdata(data)), mask=np.ascontiguousarray(np.ma.getmaskarray(data))) \
+                if isinstance(data, np.ma.MaskedArray) else np.ascontiguousarray(data)
+            with warnings.catch_warnings():
+                warnings.simplefilter("ignore")
+                g2, gs2, gc2 = kd_tree.resample_gauss(src, cdata, tgt, radius, sigmas, neighbours=k, epsilon=0, fill_value=None,
+                                                      reduce_data=False, segments=1, with_uncert=True)
+            if not (np.array_equal(np.ma.getmaskarray(g), np.ma.getmaskarray(g2)) and np.array_equal(np.ma.filled(g, -1), np.ma.filled(g2, -1), equal_nan=True)
+                    and np.array_equal(np.ma.filled(gc, -1), np.ma.filled(gc2, -1)) and np.array_equal(np.ma.filled(gs, -1), np.ma.filled(gs2, -1), equal_nan=True)):
+                ctx.fail("kd_tree.resample_gauss", "the result depends on the memory layout of the data array: the same values (np.array_equal) as a "
+                         "C-contiguous copy give another weighted mean / count / standard deviation", inp, tags={"kind": "layout"}, size=n_src + n_tgt)
         ctx.case("gauss", (desc, vname, str(sigmas), k), nontrivial=nch > 1 and len(set(sigmas)) > 1, sample={"input": inp} if nch == 3 else None)
 
 
